@@ -115,4 +115,97 @@ theorem feed_total (l r : Int) (ml : Option Nat) :
         intro e; subst e; exact hs (hstop.2 (Or.inr (Or.inr hm)))
       simp; omega
 
+
+/-! ### converses: what `feed` returns on a stream of known shape -/
+
+theorem feed_all_inside (l r : Int) (ml : Option Nat) :
+    ∀ (stream ops0 : List Int) (k0 : Nat),
+      (∀ m, ml = some m → ops0.length < m) →
+      (∀ i x, stream[i]? = some x → l ≤ x ∧ x ≤ r ∧ ml ≠ some (ops0.length + i + 1)) →
+      feed l r ml ops0 stream k0 = some (ops0 ++ stream, false, k0 + stream.length) := by
+  intro stream
+  induction stream with
+  | nil => intro ops0 k0 _ _; simp [feed]
+  | cons y t ih =>
+    intro ops0 k0 hfit hin
+    obtain ⟨res, hres, _, hstop, _⟩ := addToPath_fits ops0 ml y l r hfit
+    have hy := hin 0 y (by simp)
+    have hs : res.stop = false := by
+      cases h : res.stop with
+      | false => rfl
+      | true =>
+        exfalso
+        rcases hstop.1 h with h1 | h1 | h1
+        · omega
+        · omega
+        · exact hy.2.2 (by simpa using h1)
+    simp only [feed, hres, hs]
+    have hfit' : ∀ m, ml = some m → (ops0 ++ [y]).length < m := by
+      intro m hm
+      have := hfit m hm
+      have hne : m ≠ ops0.length + 1 := by intro e; subst e; exact hy.2.2 (by simpa using hm)
+      simp; omega
+    have := ih (ops0 ++ [y]) (k0 + 1) hfit' (by
+      intro i x hx
+      have := hin (i + 1) x (by simpa using hx)
+      simp only [List.length_append, List.length_singleton]
+      have e : ops0.length + 1 + i + 1 = ops0.length + (i + 1) + 1 := by omega
+      rw [e]; exact this)
+    simp only [Bool.false_eq_true, if_false]
+    rw [this]
+    simp
+    omega
+
+theorem feed_stop_last (l r : Int) (ml : Option Nat) :
+    ∀ (pre ops0 : List Int) (x : Int) (k0 : Nat),
+      (∀ m, ml = some m → ops0.length < m) →
+      (∀ i y, pre[i]? = some y → l ≤ y ∧ y ≤ r ∧ ml ≠ some (ops0.length + i + 1)) →
+      (x < l ∨ x > r ∨ ml = some (ops0.length + pre.length + 1)) →
+      feed l r ml ops0 (pre ++ [x]) k0
+        = some (ops0 ++ pre ++ [x], decide (x < l ∨ x > r), k0 + pre.length + 1) := by
+  intro pre
+  induction pre with
+  | nil =>
+    intro ops0 x k0 hfit _ hx
+    obtain ⟨res, hres, _, hstop, hsucc⟩ := addToPath_fits ops0 ml x l r hfit
+    have hs : res.stop = true := hstop.2 (by simpa using hx)
+    have hsu : res.success = decide (x < l ∨ x > r) := by
+      cases h : res.success with
+      | true => exact (decide_eq_true (hsucc.1 h)).symm
+      | false =>
+        have : ¬ (x < l ∨ x > r) := fun hh => by rw [hsucc.2 hh] at h; cases h
+        exact (decide_eq_false this).symm
+    simp [feed, hres, hs, hsu]
+  | cons y t ih =>
+    intro ops0 x k0 hfit hin hx
+    obtain ⟨res, hres, _, hstop, _⟩ := addToPath_fits ops0 ml y l r hfit
+    have hy := hin 0 y (by simp)
+    have hs : res.stop = false := by
+      cases h : res.stop with
+      | false => rfl
+      | true =>
+        exfalso
+        rcases hstop.1 h with h1 | h1 | h1
+        · omega
+        · omega
+        · exact hy.2.2 (by simpa using h1)
+    have hfit' : ∀ m, ml = some m → (ops0 ++ [y]).length < m := by
+      intro m hm
+      have := hfit m hm
+      have hne : m ≠ ops0.length + 1 := by intro e; subst e; exact hy.2.2 (by simpa using hm)
+      simp; omega
+    have := ih (ops0 ++ [y]) x (k0 + 1) hfit' (by
+      intro i z hz
+      have := hin (i + 1) z (by simpa using hz)
+      simp only [List.length_append, List.length_singleton]
+      have e : ops0.length + 1 + i + 1 = ops0.length + (i + 1) + 1 := by omega
+      rw [e]; exact this) (by
+      simp only [List.length_append, List.length_singleton]
+      have e : ops0.length + 1 + t.length + 1 = ops0.length + (t.length + 1) + 1 := by omega
+      rw [e]; simpa using hx)
+    simp only [List.cons_append, feed, hres, hs, Bool.false_eq_true, if_false]
+    rw [this]
+    simp
+    omega
+
 end Infretis.EngineLoops
